@@ -243,64 +243,70 @@ pub fn record(output: &str) {
                     include_linear_interpolation: include,
                     debug: false,
                 };
-                verif_hooks::start();
-                let res = guarded(|| in_pool(pool, || planner.plan(&cell.home, &land, steps.clone(), &park)));
-                let hooks = verif_hooks::drain();
-                let mut wins = [0usize; 3];
-                for h in &hooks {
-                    if h.1 == "window" {
-                        let v: Value = serde_json::from_str(&h.2).unwrap_or(json!({}));
-                        match v["kind"].as_str().unwrap_or("") { "direct" => wins[0] += 1, "bisect" => wins[1] += 1, "rrt" => wins[2] += 1, _ => {} }
-                    }
-                }
-                // (random re-planning is "needed" when the RETURNED plan contains an RRT-closed window; windows of other,
-                //  failing strategies do not count)
-                let head = json!({"ev": "plan", "case": k, "pool": pool, "rep": rep, "obstacle": obstacle_class, "include": include, "nsteps": nsteps,
-                    "windows": {"direct": wins[0], "bisect": wins[1], "rrt": wins[2]}, "max_cost_au": rad2au(max_cost),
-                    "table": table_json, "def_env": cell.def_env_um, "def_robot": 0, "nenv": nenv});
-                let mut h = head.clone();
-                match res {
-                    None => { h["outcome"] = json!("panic"); out.put(h); outcomes.push(false); }
-                    Some(Err(msg)) => { h["outcome"] = json!("err"); h["msg"] = json!(msg); out.put(h); outcomes.push(false); }
-                    Some(Ok(path)) => {
-                        h["outcome"] = json!("ok");
-                        h["len"] = json!(path.len());
-                        let seen_land = path.iter().position(|w| w.flags.contains(PathFlags::LAND)).unwrap_or(0);
-                        if path.iter().skip(seen_land + 1).any(|w| flag_names(&w.flags).is_empty()) { any_rrt = true; }
-                        out.put(h);
-                        outcomes.push(true);
-                        // originals in order: land, steps.., park
-                        let originals: Vec<Iso> = std::iter::once(&land).chain(steps.iter()).chain(std::iter::once(&park)).map(Iso::from_na).collect();
-                        let mut next_original = 0usize;
-                        for (i, w) in path.iter().enumerate() {
-                            let names = flag_names(&w.flags);
-                            let here = cell.reference.ofk(&w.joints);
-                            let is_orig = names.iter().any(|n| *n == "LAND" || *n == "TRACE" || *n == "PARK") && !names.contains(&"LIN_INTERP");
-                            let mut fk_nm = -1i64;
-                            let mut seg_um = -1i64;
-                            if is_orig {
-                                if next_original < originals.len() {
-                                    let o = &originals[next_original];
-                                    fk_nm = nano(here.dpos(o).max(here.drot(o)));
-                                    next_original += 1;
-                                } else { fk_nm = 2_000_000_000; }
-                            } else if names.contains(&"LIN_INTERP") && next_original >= 1 && next_original < originals.len() {
-                                let a = &originals[next_original - 1];
-                                let b = &originals[next_original];
-                                // on the straight segment, orientation between the two (both stroke poses share it here)
-                                let d = seg_dist(&here.t, &a.t, &b.t);
-                                let rot = here.drot(a).min(here.drot(b));
-                                seg_um = ((d.max(if a.drot(b) < 1e-9 { rot } else { 0.0 })) * 1e6).round() as i64;
-                            }
-                            let cost = if i == 0 { 0.0 } else { transition_costs(&path[i - 1].joints, &w.joints, &coeffs) };
-                            // distances of all pairs of bodies from brute force (the verdict is TLC's: module Collision)
-                            let pairs: Vec<Value> = scene::brute(&cell.kws.body, cell.kws.kinematics.as_ref(), &w.joints).iter()
-                                .map(|x| json!({"a": x.0, "b": x.1, "d": x.2, "touch": x.3})).collect();
-                            out.put(json!({"ev": "wp", "i": i + 1, "flags": names, "q": au6(&w.joints), "collides": cell.kws.collides(&w.joints), "pairs": pairs,
-                                "from": au6(&cell.from), "to": au6(&cell.to), "is_start": w.joints == cell.home,
-                                "fk_nm": fk_nm, "seg_um": seg_um, "cost_milli": ((cost / max_cost) * 1000.0).round() as i64}));
+                // (every third case: the same planner object is asked for a second stroke right away, same landing and
+                //  parking poses, stroke poses 2 cm further out; judged like any other plan)
+                for second in [false, true] {
+                    if second && !(k % 3 == 1 && rep == 0 && pool == *pools.last().unwrap()) { continue; }
+                    let steps_v: Vec<Pose> = if second { steps.iter().map(|p| Pose::from_parts(nalgebra::Translation3::new(p.translation.x + 0.02, p.translation.y, p.translation.z), p.rotation)).collect() } else { steps.clone() };
+                    verif_hooks::start();
+                    let res = guarded(|| in_pool(pool, || planner.plan(&cell.home, &land, steps_v.clone(), &park)));
+                    let hooks = verif_hooks::drain();
+                    let mut wins = [0usize; 3];
+                    for h in &hooks {
+                        if h.1 == "window" {
+                            let v: Value = serde_json::from_str(&h.2).unwrap_or(json!({}));
+                            match v["kind"].as_str().unwrap_or("") { "direct" => wins[0] += 1, "bisect" => wins[1] += 1, "rrt" => wins[2] += 1, _ => {} }
                         }
-                        out.put(json!({"ev": "planend"}));
+                    }
+                    // (random re-planning is "needed" when the RETURNED plan contains an RRT-closed window; windows of other,
+                    //  failing strategies do not count)
+                    let head = json!({"ev": "plan", "case": k, "pool": pool, "rep": rep, "second": second, "obstacle": obstacle_class, "include": include, "nsteps": nsteps,
+                        "windows": {"direct": wins[0], "bisect": wins[1], "rrt": wins[2]}, "max_cost_au": rad2au(max_cost),
+                        "table": table_json, "def_env": cell.def_env_um, "def_robot": 0, "nenv": nenv});
+                    let mut h = head.clone();
+                    match res {
+                        None => { h["outcome"] = json!("panic"); out.put(h); if !second { outcomes.push(false); } }
+                        Some(Err(msg)) => { h["outcome"] = json!("err"); h["msg"] = json!(msg); out.put(h); if !second { outcomes.push(false); } }
+                        Some(Ok(path)) => {
+                            h["outcome"] = json!("ok");
+                            h["len"] = json!(path.len());
+                            let seen_land = path.iter().position(|w| w.flags.contains(PathFlags::LAND)).unwrap_or(0);
+                            if path.iter().skip(seen_land + 1).any(|w| flag_names(&w.flags).is_empty()) { if !second { any_rrt = true; } }
+                            out.put(h);
+                            if !second { outcomes.push(true); }
+                            // originals in order: land, steps.., park
+                            let originals: Vec<Iso> = std::iter::once(&land).chain(steps_v.iter()).chain(std::iter::once(&park)).map(Iso::from_na).collect();
+                            let mut next_original = 0usize;
+                            for (i, w) in path.iter().enumerate() {
+                                let names = flag_names(&w.flags);
+                                let here = cell.reference.ofk(&w.joints);
+                                let is_orig = names.iter().any(|n| *n == "LAND" || *n == "TRACE" || *n == "PARK") && !names.contains(&"LIN_INTERP");
+                                let mut fk_nm = -1i64;
+                                let mut seg_um = -1i64;
+                                if is_orig {
+                                    if next_original < originals.len() {
+                                        let o = &originals[next_original];
+                                        fk_nm = nano(here.dpos(o).max(here.drot(o)));
+                                        next_original += 1;
+                                    } else { fk_nm = 2_000_000_000; }
+                                } else if names.contains(&"LIN_INTERP") && next_original >= 1 && next_original < originals.len() {
+                                    let a = &originals[next_original - 1];
+                                    let b = &originals[next_original];
+                                    // on the straight segment, orientation between the two (both stroke poses share it here)
+                                    let d = seg_dist(&here.t, &a.t, &b.t);
+                                    let rot = here.drot(a).min(here.drot(b));
+                                    seg_um = ((d.max(if a.drot(b) < 1e-9 { rot } else { 0.0 })) * 1e6).round() as i64;
+                                }
+                                let cost = if i == 0 { 0.0 } else { transition_costs(&path[i - 1].joints, &w.joints, &coeffs) };
+                                // distances of all pairs of bodies from brute force (the verdict is TLC's: module Collision)
+                                let pairs: Vec<Value> = scene::brute(&cell.kws.body, cell.kws.kinematics.as_ref(), &w.joints).iter()
+                                    .map(|x| json!({"a": x.0, "b": x.1, "d": x.2, "touch": x.3})).collect();
+                                out.put(json!({"ev": "wp", "i": i + 1, "flags": names, "q": au6(&w.joints), "collides": cell.kws.collides(&w.joints), "pairs": pairs,
+                                    "from": au6(&cell.from), "to": au6(&cell.to), "is_start": w.joints == cell.home,
+                                    "fk_nm": fk_nm, "seg_um": seg_um, "cost_milli": ((cost / max_cost) * 1000.0).round() as i64}));
+                            }
+                            out.put(json!({"ev": "planend"}));
+                        }
                     }
                 }
             }
